@@ -260,3 +260,34 @@ def replay_basis_dofs(sp):
     bad = b.N != d.N or b.dofs.element_dofs.shape != d.element_dofs.shape or not np.array_equal(b.dofs.element_dofs, d.element_dofs)
     return dict(confirmed=bool(bad), input="CellBasis(%s().refined(1), %s())" % (sp["mesh"], sp["element"]),
                 observed="basis.N = %d, Dofs(mesh, elem).N = %d" % (b.N, d.N), required="the basis numbers its DOFs with Dofs(mesh, elem) of its own element")
+
+
+def replay_global_derivatives(sp):
+    """ElementGlobal: every entry of grad3 against central differences of the Hessian (ElementHexC1 delivers three derivatives)"""
+    import skfem as fem
+    m = fem.MeshHex().refined(1)
+    e = fem.ElementHexC1()
+    X = np.array([[.3], [.55], [.2]])
+    h = 1e-5
+    worst, where = 0.0, None
+    for i in (0, 9, 37):
+        f = e.gbasis(m._mapping(), X, i, tind=np.array([0]))[0]
+        g3 = getattr(f, "grad3", None)
+        if g3 is None:
+            return dict(confirmed=None, note="no third derivatives delivered")
+        for a in range(3):
+            Xp, Xm = X.copy(), X.copy()
+            Xp[a] += h
+            Xm[a] -= h
+            Hp = e.gbasis(m._mapping(), Xp, i, tind=np.array([0]))[0].hess
+            Hm = e.gbasis(m._mapping(), Xm, i, tind=np.array([0]))[0].hess
+            dF = np.asarray(m._mapping().DF(X, tind=np.array([0])))[a, a, 0, 0]
+            num = (Hp - Hm) / (2 * h * dF)
+            for b in range(3):
+                for c in range(3):
+                    err = abs(float(g3[b, c, a, 0, 0]) - float(num[b, c, 0, 0]))
+                    sc = max(1.0, abs(float(num[b, c, 0, 0])))
+                    if err / sc > worst:
+                        worst, where = err / sc, (i, (b, c, a), float(g3[b, c, a, 0, 0]), float(num[b, c, 0, 0]))
+    return dict(confirmed=bool(worst > 1e-4), input="ElementHexC1 on MeshHex().refined(1), cell 0, point (.3,.55,.2)", observed="basis %s: grad3%s delivered %r, difference quotient of hess %r" % where if where else "",
+                required="grad3[b,c,a] == d hess[b,c] / dx_a")
